@@ -280,6 +280,7 @@ TRUSTED_BASE = [
     "the Python mirror of Spec.v in tools/valgen.py (typing, enc, expected values) used by the generators, cross-checked against Spec.v on every generated value (K4)",
     "harness dumpers (harness/front, harness/runner) that print real ASTs, generated text and run-time observations, and tools/coqterm.py that prints them as Coq terms",
     "hand-written model of header.rs (Runtime.v), of the emitters (Emit.v, Render.v), of the semantics of the emitted Rust fragment (Sem.v), of the walker/indexes and of pest: tied to /repo by the correspondence checks K1/K2/K3, which are sampling",
+    "the text-level theorems (TextProofs.v, TextTie.v, Derive.v, FrontAll.v) are about the model's PEG interpreter (Peg.v) run on Grammar.v as regenerated from /repo/src/xdr.pest on this run; that pest itself parses like Peg.v is the sampled tie K1",
     "rustc/cargo, the bytes crate and the OS for what the harness observes; the harness's watchdog (20 s per specification) and restart-after-signal logic",
 ]
 RULES = {}
